@@ -96,6 +96,11 @@ class Pool:
             raise RuntimeError("worker start-up failed: " + errors[0])
         self.dead_jobs = 0
         self.stop = False
+        self.worker_of_thread = {}
+
+    def originating_worker(self):
+        """The (now idle) worker whose result the calling on_result() is handling."""
+        return self.worker_of_thread.get(threading.get_ident())
 
     def run(self, jobs_by_group, on_result, deadline=None):
         """jobs_by_group: {group: iterator of job dicts}.  Stops pulling new jobs at `deadline`
@@ -142,6 +147,7 @@ class Pool:
                         return
                     continue
                 with lock:
+                    self.worker_of_thread[threading.get_ident()] = w
                     on_result(g, job, res)
         threads = []
         for g, ws in self.workers.items():
@@ -249,7 +255,7 @@ class Report:
         self.unreproduced = 0
         self.max_reports = 3
 
-    def add_violation(self, res, hashseed, scratch, verify=True):
+    def add_violation(self, res, hashseed, scratch, verify=True, pool=None):
         key = violation_key(res)
         if any(key == v[1] for v in self.violations) or len(self.violations) >= self.max_reports:
             return
@@ -263,9 +269,26 @@ class Report:
         if verify:
             ok, r2 = replay_file(path, scratch=_ReplayScratch(scratch))
             if not ok:
-                self.unreproduced += 1
-                self.harness_errors.append("replay of %s did not reproduce (%s)" % (path, r2.get("status")))
-                return
+                # Not reproduced from a cold start.  Re-execute the explicit trace three times in the worker that found it
+                # (each in a fresh fork of that worker's process image): if it reproduces there, the violation is real but
+                # depends on something of the process image the simulator does not own (memory addresses / id() reuse).
+                again = 0
+                w = pool.originating_worker() if pool is not None else None
+                if w is not None:
+                    for _ in range(3):
+                        r3 = w.call({"cmd": "exec", "trace": res["trace"], "events": False, "timeout": 600})
+                        if r3 and r3.get("status") == "violation" and any(v["oracle"] == res["violations"][0]["oracle"] for v in r3.get("violations", [])):
+                            again += 1
+                if again < 2:
+                    self.unreproduced += 1
+                    self.harness_errors.append("replay of %s did not reproduce (%s; %d/3 in the originating worker)" % (path, r2.get("status"), again))
+                    return
+                doc = json.load(open(path))
+                doc["replay_note"] = ("reproduced %d/3 when re-executed in the originating worker's process image, NOT from a cold start: the "
+                                      "behaviour depends on process-image details outside the simulator's seams (e.g. object addresses)" % again)
+                with open(path, "w") as f:
+                    json.dump(doc, f, indent=1, sort_keys=True)
+                print("NOTE: property=%s replay=%s reproduces only in the originating process image (%d/3)" % (self.prop, path, again), flush=True)
         self.violations.append((path, key, res))
         v = res["violations"][0]
         print("VIOLATION property=%s replay=%s" % (self.prop, path), flush=True)
